@@ -20,5 +20,6 @@ uint64_t muggle_next_pow_of_2(uint64_t x)
 	x |= x >> 4;
 	x |= x >> 8;
 	x |= x >> 16;
+	x |= x >> 32;
 	return x + 1;
 }
